@@ -148,6 +148,9 @@ type Conn struct {
 
 // Cluster is the simulated cluster.
 type Cluster struct {
+	// IncValue, if non-nil, is the cell value every increment is answered with (a well-behaved
+	// server sends 8 bytes).
+	IncValue []byte
 	mu   sync.Mutex
 	cond *sync.Cond
 
